@@ -397,6 +397,14 @@ impl prometheus::core::Collector for CustomCollector {
                 if self.extra_values {
                     let mut ms = mf.get_metric().to_vec();
                     for m in ms.iter_mut() {
+                        if f.typ == PType::Histogram {
+                            // a hand-built histogram that never sets its sample count (the default, 0, applies)
+                            let old = m.get_histogram().clone();
+                            let mut h = proto::Histogram::default();
+                            h.set_sample_sum(old.get_sample_sum());
+                            h.set_bucket(old.get_bucket().to_vec());
+                            m.set_histogram(h);
+                        }
                         match f.typ {
                             PType::Counter | PType::Histogram => {
                                 let mut g = proto::Gauge::default();
@@ -430,6 +438,9 @@ impl prometheus::core::Collector for CustomCollector {
 /// Two metrics behind one collector (two descriptors).
 #[derive(Clone)]
 struct Bundle {
+    /// a same-name sibling (another constant-label value) listed BEFORE the repeated descriptor
+    sib_g: Option<IntGauge>,
+    sib_c: Option<IntCounter>,
     g: Option<IntGauge>,
     c: Option<IntCounter>,
     aux: IntCounter,
@@ -437,6 +448,12 @@ struct Bundle {
 impl prometheus::core::Collector for Bundle {
     fn desc(&self) -> Vec<&prometheus::core::Desc> {
         let mut d: Vec<&prometheus::core::Desc> = vec![];
+        if let Some(g) = &self.sib_g {
+            d.extend(g.desc());
+        }
+        if let Some(c) = &self.sib_c {
+            d.extend(c.desc());
+        }
         if let Some(g) = &self.g {
             d.extend(g.desc());
         }
@@ -448,6 +465,12 @@ impl prometheus::core::Collector for Bundle {
     }
     fn collect(&self) -> Vec<proto::MetricFamily> {
         let mut f = vec![];
+        if let Some(g) = &self.sib_g {
+            f.extend(g.collect());
+        }
+        if let Some(c) = &self.sib_c {
+            f.extend(c.collect());
+        }
         if let Some(g) = &self.g {
             f.extend(g.collect());
         }
@@ -504,7 +527,7 @@ pub fn run_replicas(plan: &GatherPlan, mode: Mode) -> (crate::engine::RunResult,
         let o = Opts::new("zz_race", "racing registrations").const_label("k", "v");
         let c = IntCounter::with_opts(o.clone()).unwrap();
         c.inc_by(5);
-        let b = Bundle { g: IntGauge::with_opts(o).ok(), c: None, aux: IntCounter::new("zz_race_aux", "aux").unwrap() };
+        let b = Bundle { sib_g: None, sib_c: None, g: IntGauge::with_opts(o).ok(), c: None, aux: IntCounter::new("zz_race_aux", "aux").unwrap() };
         if let Some(g) = &b.g {
             g.set(9);
         }
@@ -616,7 +639,19 @@ pub fn run_replicas(plan: &GatherPlan, mode: Mode) -> (crate::engine::RunResult,
                     }
                     let o = Opts::new(m0.name.clone(), m0.help.clone()).const_labels(consts);
                     let is_counter = m0.kind.ptype() == PType::Counter;
+                    // in half of the cases a sibling under the same name comes first in the descriptor list
+                    let sib_opts = if !m0.consts.is_empty() && plan.hash_seeds[0] % 2 == 0 {
+                        let mut c2 = HashMap::new();
+                        for (i, (k, v)) in m0.consts.iter().enumerate() {
+                            c2.insert(k.clone(), if i == 0 { "zz_sib".to_string() } else { v.clone() });
+                        }
+                        Some(Opts::new(m0.name.clone(), m0.help.clone()).const_labels(c2))
+                    } else {
+                        None
+                    };
                     let b = Bundle {
+                        sib_g: if is_counter { sib_opts.clone().and_then(|o| IntGauge::with_opts(o).ok()) } else { None },
+                        sib_c: if is_counter { None } else { sib_opts.clone().and_then(|o| IntCounter::with_opts(o).ok()) },
                         g: if is_counter { IntGauge::with_opts(o.clone()).ok() } else { None },
                         c: if is_counter { None } else { IntCounter::with_opts(o.clone()).ok() },
                         aux: IntCounter::new("zz_aux", "aux").unwrap(),
